@@ -2,10 +2,10 @@
 
 Correspondence (implementation vs Lean model, inside `hyp`):
   * in-memory `ImageMesh` / `RectilinearMesh` / `StructuredMesh`: ordered `points`, cell type and ordered
-    `connectivity` vs `Fc.gridMesh` (exhaustive over all extents <= 3 per axis, random larger ones);
+    `connectivity` vs `Fc.C07.gridMesh` (exhaustive over all extents <= 3 per axis, random larger ones);
   * `.vti/.vtr/.vts` files written by the harness (ascii VTK XML) -> `fieldcompare.io.read_field_data` ->
-    geometric content (pixel/voxel normalised to quad/hexahedron order) vs `Fc.readGrid`;
-  * `from_meshio` / `to_meshio` on real `meshio.Mesh` objects vs `Fc.fromMeshio` / `Fc.toMeshio`.
+    geometric content (pixel/voxel normalised to quad/hexahedron order) vs `Fc.C07.readGrid`;
+  * `from_meshio` / `to_meshio` on real `meshio.Mesh` objects vs `Fc.C07.fromMeshio` / `Fc.C07.toMeshio`.
 Search (implementation vs the property, independent Python oracle `spec_lm` = the lattice described
 geometrically): every container format a grid can be expressed in (`.vti`, `.vtr`, `.vts`, `.vtu` written with
 `fieldcompare.io.write`, legacy `.vtk` and `.xdmf` written by meshio) must read to the same content, and any two of
@@ -330,6 +330,33 @@ def gen_grid(rng, maxe=4, family=None, fields=True):
     return g
 
 
+def gen_inexact_grid(rng, maxe=4):
+    """axis-aligned grid with decimal origin / spacing: the structured classes evaluate origin + i*spacing in
+    floating point, other writers round the exact value once — representations agree only up to rounding"""
+    ext = gen_ext(rng, maxe)
+    scale = rng.choice([1e-3, 1.0, 1.0, 250.0])
+    origin = [rng.choice([0.0, 0.1, -0.7, 3.3]) * scale for _ in range(3)]
+    spacing = [rng.choice([0.1, 0.3, 0.7, 1.1, 1e-2]) * scale for _ in range(3)]
+    g = {"ext": ext, "family": "axis", "inexact": True, "lo": [0, 0, 0], "origin": origin, "spacing": spacing,
+         "basis": [[1.0, 0.0, 0.0], [0.0, 1.0, 0.0], [0.0, 0.0, 1.0]], "basis_kind": "identity",
+         "direction_attr": rng.random() < 0.5}
+    rnd = lambda fr: fr.numerator / fr.denominator
+    g["ords"] = [[rnd(Fraction(origin[d]) + Fraction(spacing[d]) * i) for i in range(ext[d] + 1)] for d in range(3)]
+    g["pts"] = [[g["ords"][0][i], g["ords"][1][j], g["ords"][2][k]] for (i, j, k) in lattice_points_order(ext)]
+    return gen_fields(rng, g)
+
+
+def snap_points(lm, grid):
+    """replace coordinates that agree with the oracle's up to rounding (1e-12 relative to the grid size) by the
+    oracle's, so that the content can be compared exactly"""
+    if isinstance(lm, str) or len(lm["points"]) != len(grid["pts"]):
+        return lm
+    tol = 1e-12 * max([1.0] + [abs(c) for p in grid["pts"] for c in p])
+    lm = dict(lm, points=[list(q) if len(p) == len(q) and all(abs(a - b) <= tol for a, b in zip(p, q)) else p
+                          for p, q in zip(lm["points"], grid["pts"])])
+    return lm
+
+
 def formats_of(grid):
     return {"axis": ["vti", "vtr", "vts", "vtu"], "affine": ["vti", "vts", "vtu"], "rect": ["vtr", "vts", "vtu"],
             "curvi": ["vts", "vtu"]}[grid["family"]]
@@ -364,6 +391,8 @@ def _piece_data(grid):
 def file_origin(grid):
     """the Origin attribute such that — in VTK's semantics — structured index `lo` sits at grid['origin']"""
     lo = grid["lo"]
+    if not any(lo):
+        return list(grid["origin"])
     v = [Fraction(grid["spacing"][d]) * lo[d] for d in range(3)]
     return [_exact(Fraction(grid["origin"][r]) - sum(Fraction(grid["basis"][r][c]) * v[c] for c in range(3)))
             for r in range(3)]
@@ -591,6 +620,18 @@ def impl_mesh(grid, kind):
         return "raise"
 
 
+def norm_mesh_obs(obs):
+    """`TYPE@points@rows` with pixel / voxel cells rewritten as the compatible quad / hexahedron (corner order
+    0,1,3,2 / 0,1,3,2,4,5,7,6): which of the two compatible types a class exposes is not part of the property"""
+    if obs.count("@") != 2:
+        return obs
+    t, ps, rs = obs.split("@")
+    rows = [[int(i) for i in r.split(",")] for r in rs.split(";")] if rs else []
+    out = [_norm_row(t, r) for r in rows]
+    tt = out[0][0] if out else _norm_row(t, [0] * 8)[0]
+    return f"{tt}@{ps}@" + ";".join(",".join(str(i) for i in r) for _, r in out)
+
+
 def spec_mesh(grid, kind):
     t, rows = lattice_cells(grid["ext"])
     if kind != "struct":
@@ -648,9 +689,12 @@ def check_grid_files(ctx, grid, tmp, lean_lines, pending, with_meshio=False):
         path = base + "." + fmt if fmt != "vtu" else write_vtu(base, grid)
         fobj, lm = impl_read(path)
         os.remove(path)
+        if grid.get("inexact"):
+            lm = snap_points(lm, grid)
         impl = lm if isinstance(lm, str) else list(content_strings(lm))
         ctx.case(("file", fmt, grid_key(grid), tuple(grid["lo"])), nontrivial=True,
-                 tags=[f"fmt-{fmt}", f"family-{grid['family']}", f"zero-{''.join(map(str, zero))}",
+                 tags=[f"fmt-{fmt}", f"family-{grid['family']}" + ("-inexact" if grid.get("inexact") else ""),
+                       f"zero-{''.join(map(str, zero))}",
                        "offset-extent" if any(grid["lo"]) else "extent-from-0"],
                  sample={"format": fmt, "ext": grid["ext"], "lo": grid["lo"], "family": grid["family"],
                          "impl_cells": (impl if isinstance(impl, str) else len(impl[1]))})
@@ -663,7 +707,7 @@ def check_grid_files(ctx, grid, tmp, lean_lines, pending, with_meshio=False):
             ctx.violation(case, dtypes_of(lm), spec_dt, what=f".{fmt}: numeric type of a field changed by reading")
         if fobj is not None and not offset_vti:
             objs.append((fmt, fobj))
-        if fmt != "vtu" and ctx.driver_ok:
+        if fmt != "vtu" and ctx.driver_ok and not grid.get("inexact"):
             lean_lines.append(enc_read(grid, {"vti": "image", "vtr": "rect", "vts": "struct"}[fmt]))
             pending.append(("read", case, impl))
     if with_meshio and spec["cells"]:
@@ -724,7 +768,7 @@ def settle(ctx, lean_lines, pending):
             ctx.inconsistent(case, str(rep), "bad-op")
             continue
         if kind == "mesh":
-            model, spec, impl_c = rep["model"], rep["spec"], impl
+            model, spec, impl_c = norm_mesh_obs(rep["model"]), norm_mesh_obs(rep["spec"]), norm_mesh_obs(impl)
         else:
             model, spec, impl_c = _canon(parse_content(rep["model"])), _canon(parse_content(rep["spec"])), _canon(impl)
         # the model follows the code outside hyp as well for file reads (offset extents) and meshio blocks
@@ -754,7 +798,7 @@ def check_mesh_objects(ctx, grid, kinds, lean_lines, pending):
         case = {"op": "grid-mem", "kind": kind, "grid": {k: v for k, v in grid.items() if k not in ("pf", "cf")}}
         zero = "".join(str(int(e == 0)) for e in grid["ext"])
         ctx.case(("mem", kind, grid_key(grid)), nontrivial=True, tags=[f"mem-{kind}", f"zero-{zero}"])
-        if impl != spec:
+        if norm_mesh_obs(impl) != norm_mesh_obs(spec):
             ctx.violation(case, impl[:600], spec[:600],
                           what=f"{kind} mesh object: points / cell type / connectivity differ from the lattice they describe")
         if ctx.driver_ok:
@@ -880,7 +924,7 @@ def run(ctx):
                 "(kind, format, extents, first coordinates, number of fields)")
     ctx.assumptions += [
         "IEEE binary64 operations return the exact result when it is representable (image-data point formula is "
-        "compared on dyadic inputs whose intermediate results all fit in 53 bits: Fc.smallDyadic)",
+        "compared on dyadic inputs whose intermediate results all fit in 53 bits: Fc.C07.smallDyadic)",
         "np.fromstring parses the shortest repr of a float back to the same float (ascii VTK files written by the harness)",
         "meshio's readers/writers and meshio_to_vtk_type table (only the bridge from_meshio/to_meshio is modelled)",
         "ElementTree parses the generated XML to the element tree the writer intended",
@@ -910,6 +954,9 @@ def run(ctx):
             if len(lean_lines) > 400:
                 settle(ctx, lean_lines, pending)
         settle(ctx, lean_lines, pending)
+        # (3b) decimal origins / spacings: representations agree up to rounding; content after snapping, comparator
+        for _ in range(ctx.scale(80, 3000)):
+            check_grid_files(ctx, gen_inexact_grid(rng), tmp, lean_lines, pending)
         # (4) meshio bridge
         for _ in range(ctx.scale(1500, 40000)):
             r = gen_mio_case(rng)
@@ -960,6 +1007,8 @@ def _eval_case(case):
             {"vti": write_vti, "vtr": write_vtr, "vts": write_vts}.get(fmt, lambda p, g: None)(base + "." + fmt, grid)
             path = base + "." + fmt if fmt != "vtu" else write_vtu(base, grid)
             _, lm = impl_read(path)
+            if grid.get("inexact"):
+                lm = snap_points(lm, grid)
             impl = lm if isinstance(lm, str) else list(content_strings(lm))
             return impl, list(content_strings(spec_lm(grid)))
         finally:
@@ -983,7 +1032,7 @@ def _eval_case(case):
         finally:
             shutil.rmtree(tmp, ignore_errors=True)
     if op == "grid-mem":
-        return impl_mesh(case["grid"], case["kind"]), spec_mesh(case["grid"], case["kind"])
+        return norm_mesh_obs(impl_mesh(case["grid"], case["kind"])), norm_mesh_obs(spec_mesh(case["grid"], case["kind"]))
     if op == "mio":
         return impl_from_meshio(case["mio"]), list(mio_spec_content(case["mio"]))
     if op == "grid-meshio-file":
@@ -1021,7 +1070,8 @@ def replay_witness(ctx, entry):
 
 def replay(ctx, payload):
     impl, spec = _eval_case(payload["case"])
-    print(f"replay: impl={_short(impl)}\n        property demands={_short(spec)}")
+    print(f"replay (coordinates / float values are whole numbers of 2^-{_UNIT[0]}):\n"
+          f"  impl={_short(impl)}\n  property demands={_short(spec)}")
     if impl != spec:
         print(f"VIOLATION property=C07 replay={payload.get('_path', '<replay>')}")
         return 1
